@@ -1573,6 +1573,15 @@ type condAtom struct {
 // boolean constants, and the phis go/ssa builds for && and || in value position (tag-less switch cases,
 // assignments) are taken apart into their operands.
 func knownConds(b *ssa.BasicBlock) []condAtom {
+	return condsOf(b, nil, false)
+}
+
+// valueConds: what is known when the boolean value v has the value pol (v decomposed like a branch condition).
+func valueConds(v ssa.Value, pol bool) []condAtom {
+	return condsOf(nil, v, pol)
+}
+
+func condsOf(b *ssa.BasicBlock, v0 ssa.Value, pol0 bool) []condAtom {
 	var out []condAtom
 	seenB := map[*ssa.BasicBlock]bool{}
 	seenV := map[ssa.Value]bool{}
@@ -1654,6 +1663,11 @@ func knownConds(b *ssa.BasicBlock) []condAtom {
 			}
 		}
 	}
-	fromBlock(b)
+	if b != nil {
+		fromBlock(b)
+	}
+	if v0 != nil {
+		decompose(v0, pol0, 0)
+	}
 	return out
 }
